@@ -29,6 +29,10 @@ impl<T: Qcow2IoOps> Qcow2Dev<T> {
         flags: u32,
     ) -> Qcow2Result<()> {
         log::trace!("fallocate off {:x} len {}", offset, len);
+        if len == 0 {
+            // nothing to zero (the backend refuses an empty range)
+            return Ok(());
+        }
         let res = self.file.fallocate(offset, len, flags).await;
         match res {
             Err(_) => {
